@@ -46,7 +46,9 @@ def c04rdd (a : List String) (obs : String) : String :=
     let masks := parseMasks obs
     let mstr := (obs.splitOn " masks=").getD 1 ""
     let w := if want == "T" then 1 else if want == "B" then 2 else 3
-    let (p, op, e, s', cx) := readData (natOr st) w ProtoErr.textBytes s { masks } (s.fuel + 4)
+    -- the Text/Binary helpers exist per side only (ReadClientText, …): no other state bit reaches them
+    let stN := if want == "D" then natOr st else natOr st % 4
+    let (p, op, e, s', cx) := readData stN w ProtoErr.textBytes s { masks } (s.fuel + 4)
     let op' := if want == "D" then op else if e.isSome then 0 else (if want == "T" then 1 else 2)
     -- Go returns nil payload together with most errors; ReadAll errors keep the partial payload
     s!"{op'}:{Bytes.toHex p} {oerrStr e} {consumed s.bytes.length s'} @{writesStr2 cx.env.dst} masks={mstr}"
